@@ -118,6 +118,7 @@ def gen_pool(rng, tier, opts):
     pool.append(typical("state", rng.choice(["z0", "a"]), csys=1))
     pool.append(typical("povm", rng.choice(["x", "z"]), csys=1))
     pool.append(typical("gate", rng.choice(["x90", "hadamard"]), csys=1))
+    pool.append(typical("mprocess", rng.choice(["x-type1", "z-type2"]), csys=1))
     # tomography objects over pool testers, datasets, loss / algorithm / estimator objects
     povm_ids = [i for i, r in enumerate(pool) if r["kind"] == "povm" and r["csys"] == 0 and r.get("name") in ("x", "y", "z")]
     state_ids = [i for i, r in enumerate(pool) if r["kind"] == "state" and r["csys"] == 0 and r.get("name")]
@@ -401,6 +402,32 @@ class Run:
             return operators.compose_qoperations(*[get(i) for i in st["ids"]])
         if op == "tensor":
             return operators.tensor_product(*[get(i) for i in st["ids"]])
+        if op == "arith":
+            a = get(st["ids"][0])
+            how = st["how"]
+            if how in ("add", "sub"):
+                b = get(st["ids"][1])
+                return a + b if how == "add" else a - b
+            k = st["k"]
+            return a * k if how == "mul" else (k * a if how == "rmul" else a / k)
+        if op == "basis_fn":
+            import quara.objects.matrix_basis as mb
+
+            name = st["name"]
+            if name == "convert_vec":
+                vec = np.array(st["vec"])
+                keep = vec.copy()
+                fb, tb = (getattr(mb, n)() for n in st["bases"])
+                return {"out": mb.convert_vec(vec, fb, tb), "arg_after": vec, "arg_before": keep}
+            if name in ("calc_matrix_expansion_coefficient", "calc_hermitian_matrix_expansion_coefficient_hermitian_basis"):
+                mat = np.array(st["mat"])
+                keep = mat.copy()
+                return {"out": getattr(mb, name)(mat, getattr(mb, st["bases"][0])()), "arg_after": mat, "arg_before": keep}
+            if name == "calc_mat_from_coefficient_basis":
+                coeff = np.array(st["vec"])
+                keep = coeff.copy()
+                return {"out": mb.calc_mat_from_coefficient_basis(coeff, getattr(mb, st["bases"][0])()), "arg_after": coeff, "arg_before": keep}
+            return getattr(mb, name)(*st.get("args", []))
         if op == "cache":
             c = get(st["csys"])
             if st["action"] == "delete":
@@ -730,7 +757,7 @@ class Run:
             if not (out_live["orig_unchanged"] and out_live["sibling_unchanged"] and out_live["copy_type_ok"] and out_live["copy_equal_before_edit"]):
                 raise Violation("O3_copy_independence", f"step {idx}: editing a copy changed the original or a sibling copy, or the copy differs from the original: {out_live}", {"step": idx, "st": to_jsonable(st), "result": out_live}, sig)
         # ---- results that are quara objects join the pool (with the value the fresh world produced)
-        if isinstance(out_ref, QOperation) and type(out_ref).__name__.lower() in QOP_KINDS and op in ("m", "compose", "derive"):
+        if isinstance(out_ref, QOperation) and type(out_ref).__name__.lower() in QOP_KINDS and op in ("m", "compose", "derive", "arith"):
             src = st["on"] if op in ("m", "derive") else (st["ids"][0] if st.get("as_list") is None else self.pool[st["as_list"]]["ids"][0])
             csys_id = self.pool[src]["csys"]
             if out_live.composite_system is self.live.get(csys_id):
@@ -974,7 +1001,7 @@ class Generator:
         self.w = {
             "m": 6, "with_var": rngc.choice([1, 3]), "modfunc": rngc.choice([1, 3]), "compose": 2, "tensor": rngc.choice([0.3, 1]), "cache": 0 if self.fault_free else rngc.choice([2, 5, 8]),
             "flip": 0 if self.fault_free else rngc.choice([0, 0.5, 1.5]), "estimate": rngc.choice([0.5, 2, 4]), "loss_eval": rngc.choice([0.5, 2]), "basis_write": 0.4, "copy_edit": 0.7, "rerun": 1.0, "dataset": 0.8,
-            "mdist": 0.8, "tomo_m": 1.5, "basis_q": 0.8, "csys_q": 0.6, "chain": 0.7, "derive": 1.2, "setq": 0.8, "util": 0.8, "bad_setter": 0 if self.fault_free else 0.6,
+            "mdist": 0.8, "tomo_m": 1.5, "basis_q": 0.8, "csys_q": 0.6, "chain": 0.7, "derive": 1.2, "setq": 0.8, "util": 0.8, "bad_setter": 0 if self.fault_free else 0.6, "arith": 0.6, "basis_fn": 0.4,
         }
         self.focus = "general" if self.fault_free else rngc.choice(["general", "general", "cache", "cache", "estimation", "estimation", "projection", "tolerance"])
         if opts.get("focus"):
@@ -1165,6 +1192,14 @@ class Generator:
             shapes.append(lambda: [rng.choice(P), rng.choice(M)])
         if M and len(M) >= 1 and rng.random() < 0.3:
             shapes.append(lambda: [rng.choice(M), rng.choice(M)])
+        if M and S and rng.random() < 0.5:
+            # through a state ensemble (measurement process applied to a state), then a gate / a measurement / another process
+            if G:
+                shapes.append(lambda: [rng.choice(G), rng.choice(M), rng.choice(S)])
+                shapes.append(lambda: [rng.choice(M), rng.choice(G), rng.choice(S)])
+            if P:
+                shapes.append(lambda: [rng.choice(P), rng.choice(M), rng.choice(S)])
+            shapes.append(lambda: [rng.choice(M), rng.choice(M), rng.choice(S)])
         if not shapes:
             return None
         ids = rng.choice(shapes)()
@@ -1208,11 +1243,48 @@ class Generator:
 
     def g_tensor(self):
         rng = self.rng
-        kind = rng.choice(["state", "povm", "gate"])
-        a, b = self.ids(kind, 0), self.ids(kind, 1)
+        ka, kb = rng.choice([("state", "state"), ("povm", "povm"), ("gate", "gate"), ("mprocess", "mprocess"), ("gate", "mprocess"), ("mprocess", "gate")])
+        a = [i for i in self.ids(ka, 0) if not self.pool[i].get("sampling")]
+        b = [i for i in self.ids(kb, 1) if not self.pool[i].get("sampling")]
         if not a or not b:
             return None
         return {"op": "tensor", "ids": [rng.choice(a), rng.choice(b)]}
+
+    def g_arith(self):
+        rng = self.rng
+        kind = rng.choice(["state", "povm", "gate", "mprocess"])
+        cands = [i for i in self.ids(kind, 0) if not self.pool[i].get("sampling")]
+        if not cands:
+            return None
+        a = rng.choice(cands)
+        how = rng.choice(["add", "sub", "mul", "rmul", "div"])
+        if how in ("add", "sub"):
+            same = [i for i in cands if self.pool[i].get("flags") == self.pool[a].get("flags") and len(self.pool[i].get("vecs", [])) == len(self.pool[a].get("vecs", []))
+                    and len(self.pool[i].get("hss", [])) == len(self.pool[a].get("hss", []))]
+            b = rng.choice(same) if same and rng.random() < 0.8 else rng.choice(cands)
+            return {"op": "arith", "how": how, "ids": [a, b]}
+        return {"op": "arith", "how": how, "ids": [a], "k": rng.choice([2, 0.5, -1.0, 3, 0.25] + ([0] if how != "div" else []))}
+
+    def g_basis_fn(self):
+        rng = self.rng
+        r = rng.random()
+        B2 = ["get_comp_basis", "get_pauli_basis", "get_normalized_pauli_basis", "get_hermitian_basis", "get_normalized_hermitian_basis"]
+        if r < 0.4:
+            name = rng.choice(B2 + ["get_gell_mann_basis", "get_normalized_gell_mann_basis", "get_generalized_gell_mann_basis", "get_normalized_generalized_gell_mann_basis"])
+            st = {"op": "basis_fn", "name": name, "args": []}
+            if name in ("get_pauli_basis", "get_normalized_pauli_basis") and rng.random() < 0.3:
+                st["args"] = [2]
+            elif name in ("get_comp_basis", "get_hermitian_basis", "get_normalized_hermitian_basis") and rng.random() < 0.4:
+                st["args"] = [rng.choice([2, 3])]
+            return st
+        if r < 0.6:
+            return {"op": "basis_fn", "name": "convert_vec", "bases": [rng.choice(B2), rng.choice(B2)], "vec": np.array([rng.gauss(0, 1) for _ in range(4)])}
+        m = np.array([[complex(rng.gauss(0, 1), rng.gauss(0, 1)) for _ in range(2)] for _ in range(2)])
+        if r < 0.8:
+            return {"op": "basis_fn", "name": "calc_matrix_expansion_coefficient", "bases": [rng.choice(B2)], "mat": m}
+        if r < 0.9:
+            return {"op": "basis_fn", "name": "calc_hermitian_matrix_expansion_coefficient_hermitian_basis", "bases": [rng.choice(B2[1:])], "mat": m + m.conj().T}
+        return {"op": "basis_fn", "name": "calc_mat_from_coefficient_basis", "bases": [rng.choice(B2)], "vec": np.array([rng.gauss(0, 1) for _ in range(4)])}
 
     def g_cache(self):
         rng = self.rng
@@ -1501,7 +1573,7 @@ class Generator:
         return {"op": "copy_edit", "on": rng.choice([j for j, r in enumerate(self.pool) if r["kind"] in QOP_KINDS])}
 
     def g_rerun(self):
-        cands = [s for s in self.history if s["op"] in ("m", "with_var", "modfunc", "compose", "estimate", "loss_eval", "tomo_m", "mdist", "basis_q", "esys_q", "csys_q", "derive", "setq_q", "util")]
+        cands = [s for s in self.history if s["op"] in ("m", "with_var", "modfunc", "compose", "arith", "basis_fn", "tensor", "estimate", "loss_eval", "tomo_m", "mdist", "basis_q", "esys_q", "csys_q", "derive", "setq_q", "util")]
         if not cands:
             return None
         return copy.deepcopy(self.rng.choice(cands))
